@@ -21,4 +21,13 @@ ACCOUNTED = {
     # constructors of abstract bases: not callable by a program except from a derived constructor (the call sits in the library object of the derived class)
     'AIToolbox::MDP::QPolicyInterface::QPolicyInterface': 'constructor of an abstract interface (pure virtuals inherited from PolicyInterface): only derived-class constructors call it',
     'AIToolbox::EpsilonPolicyInterface::EpsilonPolicyInterface': 'constructor of an abstract interface (sampleRandomAction / getRandomActionProbability are pure): only derived-class constructors call it',
+    # declared and documented but defined NOWHERE: cannot be called by any program; each is an open finding with its own link unit (tools/props/c10_units.py)
+    'AIToolbox::Factored::Bandit::FlattenedModel::convertA': 'declared, never defined: finding C10-flattenedmodel-converta (unit link:FlattenedModel::convertA, fixes/C10-11)',
+    'AIToolbox::Factored::buildAdjacencyList(const AIToolbox::Factored::Action &, *': 'declared, never defined (stale forward declaration): finding C10-apsp-stale-declaration (unit link:buildAdjacencyList(A,graph), fixes/C10-6)',
+    'AIToolbox::Factored::plus(const AIToolbox::Factored::Factors &, const AIToolbox::Factored::Factors &, const AIToolbox::Factored::BasisMatrix &, *': 'declared, never defined: finding C10-basismatrix-plus-undefined (declaration scan)',
+    'AIToolbox::MDP::Dyna2::setN': 'declared, never defined: finding C10-dyna2-setn (unit link:Dyna2::setN, fixes/C10-12)',
+    'AIToolbox::MDP::DynaQ::setN': 'declared, never defined: finding C10-dynaq-setn (unit link:DynaQ::setN, fixes/C10-12)',
+    # called by harness/c10_api_utils.hpp (clause IndexMapIterator.default_ctor_and_less_than); the demangled-name matcher does not recognise
+    # `operator<` followed by a template-argument list as an operator name, so the reference is not credited
+    'AIToolbox::IndexMapIterator::operator<': 'called in harness/c10_api_utils.hpp; not credited because of a known imprecision of the symbol matcher on `operator<` + template arguments',
 }
